@@ -478,6 +478,38 @@ pub fn c13(tier: Tier) -> Vec<Scenario> {
         // two early finishes back to back: their ID releases reach the driver in either order
         out.push(c13_pair(Step::DirectEarly, Step::EntriesOnlyEarly));
     }
+    // a stream dropped without finish(): once the server has finished the search nothing is left
+    for chain in [Chain::Direct, Chain::EntriesOnly] {
+        let mut s = Scenario::new(&format!("C13/stream-dropped-unfinished/{:?}", chain));
+        s.clients = vec![client(vec![start("d0", chain), Call::Next, Call::DropStream, single(OpKind::Bind, "after")])];
+        s.plans.insert("d0".into(), plan_items(&[E, E]));
+        s.select_starts = vec![0, 1];
+        s.oracles = Oracles { leak: true, ids: true, route: true, ..Default::default() };
+        out.push(s);
+    }
+    // the caller of a pending operation goes away (its future is dropped) at any moment: once
+    // the server has answered, nothing is left of the operation
+    for kind in ["single", "search()"] {
+        let mut s = Scenario::new(&format!("C13/caller-goes-away/{}", kind));
+        let first = if kind == "single" { single(OpKind::Compare, "gone") } else { Call::Search { marker: "gone".into(), timeout: None } };
+        s.clients = vec![client(vec![first]), client(vec![single(OpKind::Bind, "other"), single(OpKind::Delete, "other2")])];
+        s.plans.insert("gone".into(), plan_items(&[E]));
+        s.cancellable = vec![0];
+        s.select_starts = vec![0, 1];
+        s.oracles = Oracles { leak: true, ids: true, route: true, ..Default::default() };
+        out.push(s);
+    }
+    // a search that has delivered an item is abandoned from another handle while its reader waits
+    let mut s = Scenario::new("C13/abandon-in-flight-stream-after-an-item");
+    s.clients = vec![
+        client(vec![start("victim", Chain::Direct), Call::Next, Call::Next, Call::Finish]),
+        client(vec![single(OpKind::Bind, "first"), Call::Abandon(AbTarget::Marker("victim".into())), single(OpKind::Bind, "after")]),
+    ];
+    s.plans.insert("victim".into(), plan_items(&[E, E, E]));
+    s.answer_after_abandon = false;
+    s.select_starts = vec![0, 1];
+    s.oracles = Oracles { leak: true, ids: true, route: true, term: true, ..Default::default() };
+    out.push(s);
     // the request write stalls, the timeout of the waiting call fires meanwhile (the driver has
     // the operation in hand by then), the write completes later
     for kind in ["start", "single", "search()"] {
@@ -686,6 +718,20 @@ pub fn c10(tier: Tier, deep: bool) -> Vec<Scenario> {
         s.oracles = Oracles { stream: true, route: true, leak: true, ..Default::default() };
         out.push(s);
     }
+    // start() called explicitly on a stream that has been started is a no-op in every state
+    for chain in [Chain::Direct, Chain::EntriesOnly] {
+        for at in 0..4usize {
+            let mut script = vec![start("s", chain.clone()), Call::Next, Call::Next, Call::Finish];
+            script.insert(1 + at, Call::ExplicitStart);
+            script.extend([Call::Next, Call::Finish]);
+            let mut s = Scenario::new(&format!("C10/{:?}/explicit-start-at-{}", chain, at));
+            s.clients = vec![client(script)];
+            s.plans.insert("s".into(), plan_items(&[E]));
+            s.select_starts = vec![1];
+            s.oracles = Oracles { stream: true, route: true, leak: true, ..Default::default() };
+            out.push(s);
+        }
+    }
     // what a user-defined adapter sees on the stream after the call up the chain failed
     let mut s = Scenario::new("C10/Probe/failure-seen-inside-the-chain");
     s.clients = vec![ClientSpec { script: vec![start("s", Chain::Probe), Call::Next], free: 3 }];
@@ -810,6 +856,17 @@ pub fn c16(tier: Tier, deep: bool) -> Vec<Scenario> {
                 s.oracles = Oracles { paged: true, stream: true, route: true, leak: true, ids: true, ..Default::default() };
                 out.push(s);
             }
+        }
+    }
+    // every page (also the non-final ones) ends with a non-zero result code; size estimates beyond 31 bits
+    for (rc, ck) in [(4u32, CookieStyle::Distinct), (11, CookieStyle::Constant), (0, CookieStyle::HugeEstimate), (4, CookieStyle::HugeEstimate)] {
+        for chain in [Chain::Paged(1), Chain::EntriesPaged(2), Chain::PagedEntries(1)] {
+            let mut s = Scenario::new(&format!("C16/rc{}-on-every-page/{:?}/{:?}", rc, ck, chain));
+            s.clients = vec![ClientSpec { script: vec![start("pg", chain)], free: 7 }];
+            s.plans.insert("pg".into(), Plan { total: 4, rc, cookie: ck, res_ctrls: true, ..Default::default() });
+            s.select_starts = vec![1];
+            s.oracles = Oracles { paged: true, stream: true, route: true, leak: true, ids: true, ..Default::default() };
+            out.push(s);
         }
     }
     // the pager outermost, EntriesOnly inside; references on every page
@@ -1038,7 +1095,7 @@ pub fn c12(tier: Tier) -> Vec<Scenario> {
 pub fn c04(tier: Tier) -> Vec<Scenario> {
     let mut out = vec![];
     let o = Oracles { term: true, route: true, ..Default::default() };
-    let read_faults = vec![FaultKind::Eof, FaultKind::Reset, FaultKind::Garbage, FaultKind::ShortGarbage];
+    let read_faults = vec![FaultKind::Eof, FaultKind::Reset, FaultKind::Garbage, FaultKind::ShortGarbage, FaultKind::BadResultTail];
     let write_faults = vec![FaultKind::WriteErr, FaultKind::WritePartial(3), FaultKind::WritePendingOnce];
     let mut all = read_faults.clone();
     all.extend(write_faults.clone());
@@ -1073,7 +1130,7 @@ pub fn c04(tier: Tier) -> Vec<Scenario> {
         client(vec![start("s", Chain::Direct), Call::Next, Call::Next, Call::Next, Call::Finish]),
     ];
     s.plans.insert("s".into(), plan_items(&[E, E]));
-    s.faults = if tier == Tier::Thorough { all.clone() } else { vec![FaultKind::Eof, FaultKind::Garbage, FaultKind::ShortGarbage, FaultKind::WriteErr] };
+    s.faults = if tier == Tier::Thorough { all.clone() } else { vec![FaultKind::Eof, FaultKind::Garbage, FaultKind::ShortGarbage, FaultKind::BadResultTail, FaultKind::WriteErr] };
     s.fault_budget = 1;
     s.select_starts = vec![1, 3];
     s.oracles = o.clone();
